@@ -50,7 +50,8 @@ func init() {
 			{Name: "variable default overwrites an explicit null (seeded change C06-23)", File: "v2/pkg/astnormalization/variables_default_value_extraction.go", Rule: "C06-R9", Key: "EnterVariableDefinition/default-written-only-when-absent",
 				Old: "\t_, _, _, err := jsonparser.Get(v.operation.Input.Variables, variableName)\n\tif err == nil {\n\t\treturn\n\t}\n", New: "\t_, dataType, _, err := jsonparser.Get(v.operation.Input.Variables, variableName)\n\tif err == nil && dataType != jsonparser.Null {\n\t\treturn\n\t}\n"},
 			{Name: "validator error slot not reset between requests", File: varsValGo, Rule: "C06-R4", Key: "err-reset-before-walk",
-				Old: "\tv.visitor.variables, v.visitor.err = astjson.ParseBytes(variables)\n\tif v.visitor.err != nil {\n\t\treturn v.visitor.err\n\t}\n", New: "\tparsed, perr := astjson.ParseBytes(variables)\n\tif perr != nil {\n\t\treturn perr\n\t}\n\tv.visitor.variables = parsed\n"},
+				Old: "\tv.visitor.variables, v.visitor.err = astjson.ParseBytes(variables)\n\tif v.visitor.err != nil {\n", New: "\tparsed, perr := astjson.ParseBytes(variables)\n\tv.visitor.variables = parsed\n\tif perr != nil {\n",
+				Also: [][2]string{{"\t\treturn v.visitor.err\n\t}\n\treport := &operationreport.Report{}\n", "\t\treturn perr\n\t}\n\treport := &operationreport.Report{}\n"}}},
 			{Name: "null list items skipped before descending", File: varsValGo, Rule: "C06-R5", Key: "traverseFieldDefinitionType",
 				Old: "\t\tfor i, arrayValue := range jsonValue.GetArray() {\n\t\t\tv.pushArrayPath(i)\n", New: "\t\tfor i, arrayValue := range jsonValue.GetArray() {\n\t\t\tif arrayValue.Type() == astjson.TypeNull {\n\t\t\t\tcontinue\n\t\t\t}\n\t\t\tv.pushArrayPath(i)\n"},
 		},
